@@ -2,6 +2,7 @@ package verifsim
 
 import (
 	"net/url"
+	"regexp"
 	"strings"
 )
 
@@ -80,14 +81,35 @@ func excluded(u string, s Settings) bool {
 	return false
 }
 
-// MatchesDomainsCrawl: the configured --domains-crawl entries are naive domains (exact host or sub-domain match).
+// MatchesDomainsCrawl models --domains-crawl as documented in the domainscrawl package: an entry with a scheme and a
+// host is a full URL (it matches that exact URL text, or - when nothing follows the host - the host and its
+// sub-domains); an entry without "://", "/", "?", "#" or blanks that contains a dot is a naive domain (host or
+// sub-domain, whatever the port); anything else is a regular expression matched against the whole link text.
 func MatchesDomainsCrawl(u string, s Settings) bool {
 	h := HostOf(u)
 	if i := strings.IndexByte(h, ':'); i >= 0 {
 		h = h[:i]
 	}
+	hostMatch := func(d string) bool { return h == d || strings.HasSuffix(h, "."+d) }
 	for _, d := range s.DomainsCrawl {
-		if h == d || strings.HasSuffix(h, "."+d) {
+		if i := strings.Index(d, "://"); i > 0 && !strings.ContainsAny(d[:i], `\^$([`) {
+			rest := d[i+3:]
+			if j := strings.IndexAny(rest, "/?#"); j < 0 {
+				if hostMatch(rest) {
+					return true
+				}
+			} else if d == u {
+				return true
+			}
+			continue
+		}
+		if !strings.ContainsAny(d, "/?# ") && strings.Contains(d, ".") && !strings.Contains(d, "://") {
+			if hostMatch(d) {
+				return true
+			}
+			continue
+		}
+		if regexp.MustCompile(d).MatchString(u) {
 			return true
 		}
 	}
